@@ -10,8 +10,13 @@ ops:  `file <len> <seed> <pat> <period> <badLo> <badHi>`   (first line: the file
                       (a maximal run of consecutive `t` lines is one concurrent section; the model executes
                       it in listing order — by `C13_history_independent` every interleaving gives the same
                       outcomes)
+      `sync`          after a concurrent section: the harness reports whether two of the section's threads
+                      were ever inside the byte source of this cache at the same time (`into` calls excepted,
+                      they bypass the cache). The code holds the buffer-manager mutex from planning a read to
+                      inserting the buffer (cache.rs:55-75), which is what makes "listing order" a faithful
+                      model of every schedule; the model therefore always answers `sync overlap=0`.
 out:  one line per op: `ok <len> <hex>` (len ≤ 40) | `ok <len> h:<fnv1a-64>` | `err:<kind>` | `panic`
-      (a panic ends the case)
+      (a panic ends the case); `sync overlap=<0|1>` for a `sync` line
 
 The file is never printed: byte `i` is `genByte g i`, computed identically by the harness
 (`harness/src/bin/c13.rs::gen_byte`).
@@ -75,13 +80,14 @@ def parseOpWords : List String → Option Op
   | ["into", o, n] => do pure (.into (← o.toNat?) (← n.toNat?))
   | _ => none
 
-/-- an op line, with or without the `t <k>` prefix -/
-def parseOp (l : String) : Option Op :=
+/-- an op line, with or without the `t <k>` prefix; `some none` = a `sync` line -/
+def parseOp (l : String) : Option (Option Op) :=
   match words l with
-  | "t" :: _ :: rest => parseOpWords rest
-  | ws => parseOpWords ws
+  | ["sync"] => some none
+  | "t" :: _ :: rest => (parseOpWords rest).map some
+  | ws => (parseOpWords ws).map some
 
-def parse (ls : List String) : Option (Gen × List Op) :=
+def parse (ls : List String) : Option (Gen × List (Option Op)) :=
   match ls with
   | l :: rest => do
     let g ← parseGen l
@@ -122,10 +128,11 @@ def model (ls : List String) : List String :=
   | none => ["bad-op"]
   | some (g, ops) =>
     let c : Cfg := ⟨realChunk, src g⟩
-    let rec go (st : St) (ops : List Op) (acc : List String) : List String :=
+    let rec go (st : St) (ops : List (Option Op)) (acc : List String) : List String :=
       match ops with
       | [] => acc.reverse
-      | op :: rest =>
+      | none :: rest => go st rest ("sync overlap=0" :: acc)
+      | some op :: rest =>
         if tooLarge g op then go st rest ("skip:too-large" :: acc) else
         match step c st op with
         | (_, .panic) => ("panic" :: acc).reverse
@@ -209,10 +216,12 @@ def judge (ops impl : List String) : Bool × String :=
   | some (g, opl) =>
     if impl.length ≠ opl.length ∧ impl.getLast? ≠ some "panic" then (false, "wrong number of output lines") else
     -- every outcome against the file; and equal requests must have equal outcomes (history independence)
-    let rec go (opl : List Op) (outs : List String) (seen : List (Op × String)) : Bool × String :=
+    let rec go (opl : List (Option Op)) (outs : List String) (seen : List (Op × String)) : Bool × String :=
       match opl, outs with
       | [], [] => (true, "ok")
-      | op :: os, o :: rest =>
+      -- a `sync` line reports on the schedule, not on the bytes: nothing of the statement to judge
+      | none :: os, o :: rest => if o.startsWith "sync" then go os rest seen else (false, s!"unparsable output {o}")
+      | some op :: os, o :: rest =>
         match judgeOp g op o with
         | .bad why => (false, why)
         | .good =>
